@@ -428,6 +428,11 @@ func runC02(c *core.Ctx) {
 
 	c.Job("A/leaseset2", n, func(i int, r *core.Rand) {
 		m, sh := gen.LeaseSet2(r)
+		if m.Offline != nil && i%8 == 3 {
+			// every value of the 4-byte expires field is a well-formed encoding, zero included
+			m.Offline.Expires = []uint32{0, 0, 1, 0xffffffff}[(i/8)%4]
+			sh["offline_expires"] = int64(m.Offline.Expires)
+		}
 		c02Direction(c, c02case{kind: "leaseset2", enc: m.Encode(), want: mLeaseSet2(m), shape: sh, site: "lease_set2.ReadLeaseSet2",
 			parse: func(in []byte) (lib.Fields, []byte, bool, error) {
 				a, rem, err := lease_set2.ReadLeaseSet2(in)
@@ -442,6 +447,11 @@ func runC02(c *core.Ctx) {
 
 	c.Job("A/metaleaseset", n, func(i int, r *core.Rand) {
 		m, sh := gen.MetaLeaseSet(r)
+		if m.Offline != nil && i%8 == 3 {
+			// every value of the 4-byte expires field is a well-formed encoding, zero included
+			m.Offline.Expires = []uint32{0, 0, 1, 0xffffffff}[(i/8)%4]
+			sh["offline_expires"] = int64(m.Offline.Expires)
+		}
 		c02Direction(c, c02case{kind: "metaleaseset", enc: m.Encode(), want: mMeta(m), shape: sh, site: "meta_leaseset.ReadMetaLeaseSet",
 			parse: func(in []byte) (lib.Fields, []byte, bool, error) {
 				a, rem, err := meta_leaseset.ReadMetaLeaseSet(in)
@@ -456,6 +466,11 @@ func runC02(c *core.Ctx) {
 
 	c.Job("A/encleaseset", n, func(i int, r *core.Rand) {
 		m, sh := gen.EncryptedLeaseSet(r)
+		if m.Offline != nil && i%8 == 3 {
+			// every value of the 4-byte expires field is a well-formed encoding, zero included
+			m.Offline.Expires = []uint32{0, 0, 1, 0xffffffff}[(i/8)%4]
+			sh["offline_expires"] = int64(m.Offline.Expires)
+		}
 		c02Direction(c, c02case{kind: "encleaseset", enc: m.Encode(), want: mELS(m), shape: sh, site: "encrypted_leaseset.ReadEncryptedLeaseSet",
 			parse: func(in []byte) (lib.Fields, []byte, bool, error) {
 				a, rem, err := encrypted_leaseset.ReadEncryptedLeaseSet(in)
@@ -471,6 +486,9 @@ func runC02(c *core.Ctx) {
 	c.Job("A/offline", n, func(i int, r *core.Rand) {
 		ds := []int{0, 1, 2, 7, 8, 11}[i%6]
 		m := gen.Offline(r, ds)
+		if i%8 == 3 {
+			m.Expires = []uint32{0, 0, 1, 0xffffffff}[(i/8)%4]
+		}
 		f := &mfields{}
 		mOffline(f, &m)
 		c02Direction(c, c02case{kind: "offline", enc: m.Encode(), want: f.Fields, shape: gen.Shape{"dest_sig": ds, "transient": int(m.SigType)}, site: "offline_signature.ReadOfflineSignature",
@@ -880,6 +898,12 @@ func runC02B(c *core.Ctx, n int) {
 		m, sh := gen.LeaseSet2(r)
 		want := m
 		want.Options = sortedMapping(m.Options)
+		if lib.HandsOverUnsorted(m.Options) {
+			// the constructor is given a parsed, unsorted Mapping and stores it as given: the
+			// encoding carries the pairs in the caller's order
+			want.Options = m.Options
+			sh["options_handed_over_unsorted"] = true
+		}
 		c02B(c, "lease_set2.NewLeaseSet2", sh, want, func() ([]byte, bool, error) {
 			v, ok, err := lib.BuildLeaseSet2(m, nil)
 			if !ok || err != nil {
